@@ -148,6 +148,8 @@ func (s *simS) step(a int) bool {
 		case 'c':
 			s.clear()
 			s.ip++
+		case 'x': // rejected Push: nothing happens
+			s.ip++
 		}
 	case 1:
 		if len(s.writable) >= 1 {
@@ -372,6 +374,79 @@ func c12Gen(g *hx.Gen) {
 		}
 		c12Enumerate(g, h.c, h.ac, ty, ops, capH)
 	}
+	// (1c) a rejected Push (a value of another type) when the chunk is exactly full, then
+	// Finalise: the rejected call must not hand the chunk over.  The schedule runs the writers
+	// of the earlier chunks to completion, then probes the writer that must not exist (flag x;
+	// were it spawned it would now be held at write.register) and steps the caller through
+	// Finalise and the pulls while that writer stays parked.
+	nrej := scale(24, 120)
+	for k := 0; k < nrej && !g.Done(); k++ {
+		c := g.Pick(1, 2, 3, 4)
+		full := g.Range(1, 3)
+		ty := "i"
+		if g.Chance(0.5) {
+			ty = "s"
+		}
+		var ops []string
+		if g.Chance(0.3) { // an earlier cycle
+			ops = c11Cycle(g, ops, c, ty, g.Range(1, 2)*c+g.Intn(2), g.Intn(3), true, 8)
+		}
+		n := full * c
+		for i := 0; i < n; i++ {
+			if ty == "s" {
+				ops = append(ops, fmt.Sprintf("p%d:%d", g.Intn(9)-3, g.Intn(4)))
+			} else {
+				ops = append(ops, fmt.Sprintf("p%d", g.Intn(9)-3))
+			}
+		}
+		ops = append(ops, "x")
+		if g.Chance(0.3) {
+			ops = append(ops, "x")
+		}
+		rest := []string{"f"}
+		for i := 0; i <= n; i++ {
+			rest = append(rest, "l")
+		}
+		s := newSim(c, false, append(append([]string(nil), ops...), rest...))
+		var sched []int
+		nx := len(ops)
+		for steps := 0; steps < 600 && s.ip < nx; steps++ {
+			var en []int
+			for a := 0; a <= len(s.ws); a++ {
+				if s.clone().step(a) {
+					en = append(en, a)
+				}
+			}
+			if len(en) == 0 {
+				break
+			}
+			a := en[len(en)-1] // writers first: the earlier chunks are on disk before the rejected Push
+			if g.Chance(0.15) {
+				a = en[g.Intn(len(en))]
+			}
+			s.step(a)
+			sched = append(sched, a)
+		}
+		for s.writersAlive() && len(sched) < 700 { // let the earlier writers finish
+			moved := false
+			for a := 1; a <= len(s.ws); a++ {
+				if s.clone().step(a) {
+					s.step(a)
+					sched = append(sched, a)
+					moved = true
+					break
+				}
+			}
+			if !moved {
+				break
+			}
+		}
+		sched = append(sched, len(s.ws)+1) // the writer a rejected Push must not spawn
+		for i := 0; i < len(rest)+c+8; i++ {
+			sched = append(sched, 0)
+		}
+		g.Case(c12Line(c, false, ty, append(ops, rest...), sched))
+	}
 	// (2) random walks on larger workloads and histories of 1..4 cycles, (3) probes
 	n := scale(750, 5000)
 	for k := 0; k < n && !g.Done(); k++ {
@@ -408,6 +483,12 @@ func c12Gen(g *hx.Gen) {
 			}
 			ops = c11Cycle(g, ops, c, ty, cnt, pulls, clear, g.Pick(3, 8, 100))
 			cnt = g.Pick(chunks*c+last, c+1, 2*c, c11Count(g, c))
+		}
+		if g.Chance(0.2) { // rejected pushes anywhere
+			for r := g.Range(1, 2); r > 0; r-- {
+				i := g.Intn(len(ops) + 1)
+				ops = append(ops[:i:i], append([]string{"x"}, ops[i:]...)...)
+			}
 		}
 		s := newSim(c, ac, ops)
 		bias := g.Pick(0, 1, 2, 3) // 0 uniform, 1 caller first, 2 writers first, 3 newest writer last
